@@ -297,6 +297,29 @@ class Ctx:
             return False, out
         return True, out
 
+    def harness_crash_search(self, name, args, total, timeout=120, env=None):
+        """The harness process died (a panic in a goroutine of the code under test cannot be recovered): find
+        the case that kills it by re-running the same seeded script one case at a time (`-only k`).
+        Returns (index, output tail) or None."""
+        exe = os.path.join(ROOT, "harness", "bin", name)
+        e = dict(GOENV)
+        if env:
+            e.update(env)
+        from concurrent.futures import ThreadPoolExecutor
+
+        def one(k):
+            try:
+                rc, out = sh([exe] + [str(a) for a in args] + ["-only", str(k), "-out", "only_%d.jsonl" % k],
+                             timeout=timeout, env=e, cwd=self.work)
+            except subprocess.TimeoutExpired:
+                return k, 1, "timeout"
+            return k, rc, out
+        with ThreadPoolExecutor(max_workers=8) as ex:
+            for k, rc, out in ex.map(one, range(total)):
+                if rc != 0:
+                    return k, out[-3000:]
+        return None
+
     def read_jsonl(self, path):
         rows = []
         with open(path) as f:
